@@ -230,6 +230,8 @@ pub fn gen_workspace2(rng: &mut Rng, rich: bool, max_patches: usize, allow_fail:
         // (rarely) a strip count far beyond what any name has: every name becomes empty, the patch is refused
         let huge = rng.chance(1);
         let opt = if huge { rng.pick(&[" -p18446744073709551615".to_string(), " -p4000000000".to_string(), " -p 1099511627776".to_string()]).clone() } else { match gp.p { 1 => if rng.chance(50) { "".to_string() } else { " -p1".to_string() }, p => rng.pick(&[format!(" -p{}", p), format!(" -p {}", p), format!(" --strip={}", p)]).clone() } };
+        // (rarely) the option is set off by a non-ASCII white-space character (`split_whitespace` is Unicode-aware)
+        let opt = if !opt.is_empty() && rng.chance(4) { format!("{}{}", rng.pick(&["\u{a0}", "\u{3000}", "\u{2003}", "\u{85}"]), &opt[1..]) } else { opt };
         series.extend_from_slice(format!("{}{}{}\n", if hash_name { " " } else { "" }, name, opt).as_bytes());
         names.push(name);
     }
@@ -247,12 +249,32 @@ pub fn gen_options(rng: &mut Rng, threads: &[usize]) -> Vec<String> {
     match rng.below(8) { 0 => { o.push("--backup-count".into()); o.push("all".into()); } 1 => { o.push("--backup-count".into()); o.push("0".into()); }
         2 => { o.push("--backup-count".into()); o.push("1".into()); } 3 => { o.push("--backup-count".into()); o.push("2".into()); } _ => {} }
     if rng.chance(25) { o.push("-F".into()); o.push(rng.below(4).to_string()); }
+    // (rarely) numbers spelled the way `str::parse::<usize>` accepts or refuses them: `+2` is 2; `2x`, `1_0`, the
+    // empty string and 2^64 are not numbers (for --fuzz: silently 0; for --backup-count / --threads: refused)
+    if rng.chance(3) {
+        // (no empty value and no blank inside a value: an invocation travels through the line protocol as one blank-separated string)
+        let v = rng.pick(&["+2", "+0", "2x", "1_0", "18446744073709551616", "00001", "+"]).to_string();
+        match rng.below(4) { 0 | 1 => { o.push("-F".into()); o.push(v); } 2 => { o.push("--backup-count".into()); o.push(v); }
+            _ => { if threads != [1] || rng.chance(30) { o[1] = rng.pick(&["+1", "+2", "x", "01"]).to_string(); } } }
+    }
     // presentation / loader options: never change the result (C14)
     match rng.below(8) { 0 => {}, 1 => o.push("-v".into()), 2 => { o.push("-v".into()); o.push("-v".into()); } 3 => { o.push("-q".into()); o.push("-v".into()); } _ => o.push("-q".into()) }
     if rng.chance(25) { o.push("--mmap".into()); }
     if rng.chance(10) { o.push("--stats".into()); }
     match rng.below(10) { 0 => { o.push("--color".into()); o.push("always".into()); } 1 => { o.push("--color".into()); o.push("never".into()); } _ => {} }
     if rng.chance(10) { o.push("-A".into()); o.push(rng.pick(&["multiapply", "multiapply", "MultiApply"]).to_string()); }
+    // (rarely) an option that may be given only once is given twice: getopts refuses ("Option 'quiet' given more than
+    // once"), exit 1, nothing touched; -v and -A may repeat
+    if rng.chance(2) {
+        match rng.below(6) {
+            0 => { o.push("-q".into()); o.push("-q".into()); }
+            1 => { o.push("--mmap".into()); o.push("--mmap".into()); }
+            2 => { o.push("--stats".into()); o.push("--stats".into()); }
+            3 => { o.push("-F".into()); o.push("1".into()); o.push("--fuzz".into()); o.push("1".into()); }
+            4 => { o.push("-b".into()); o.push("never".into()); o.push("--backup".into()); o.push("never".into()); }
+            _ => { o.push("-v".into()); o.push("-v".into()); o.push("-v".into()); o.push("-A".into()); o.push("multiapply".into()); o.push("-A".into()); o.push("multiapply".into()); }
+        }
+    }
     // (rarely) an option value the tool must refuse: exit 1, nothing touched
     if rng.chance(2) {
         match rng.below(5) {
@@ -267,10 +289,17 @@ pub fn gen_options(rng: &mut Rng, threads: &[usize]) -> Vec<String> {
 }
 
 pub fn gen_goal(rng: &mut Rng, ws: &Workspace) -> Vec<String> {
+    // (rarely) `-a` together with an argument, or two arguments: the first free argument decides, wherever `-a` stands
+    if rng.chance(4) {
+        let n = rng.below(ws.npatches + 2).to_string();
+        return match rng.below(4) { 0 => vec!["-a".to_string(), n], 1 => vec![n, "-a".to_string()], 2 => vec![n, rng.below(3).to_string()],
+            _ => vec![ws.names[rng.below(ws.names.len())].clone(), "-a".to_string()] };
+    }
     match rng.below(10) {
         0..=4 => vec!["-a".to_string()],
         5 => vec![],
-        6 | 7 => vec![(rng.below(ws.npatches + 2)).to_string()],
+        6 => vec![(rng.below(ws.npatches + 2)).to_string()],
+        7 => if rng.chance(80) { vec![(rng.below(ws.npatches + 2)).to_string()] } else { vec![rng.pick(&["+1", "+2", "1_0", "2x", "18446744073709551616", "01"]).to_string()] },
         _ => vec![ws.names[rng.below(ws.names.len())].clone()],
     }
 }
@@ -374,10 +403,19 @@ pub fn run<W: Write>(out: &mut W, seed: u64, n: usize, opts: &HashMap<String, St
             ws.tree.insert(b"series".to_vec(), Entry::File(0o644, series));
         }
         if rng.chance(state) { mutate_state(&mut rng, &mut ws, ()); }
+        // (sometimes) the patches live elsewhere (`-p <dir>`, what QUILT_PATCHES is to quilt): every invocation says so
+        let pdir: Option<&str> = if rng.chance(6) { Some(*rng.pick(&["debian/patches", "pp", "patches/sub"])) } else { None };
+        if let Some(pd) = pdir {
+            let moved: Vec<(Vec<u8>, Entry)> = ws.tree.iter().filter(|(k, _)| k.starts_with(b"patches/")).map(|(k, v)| (k.clone(), v.clone())).collect();
+            for (k, v) in moved { ws.tree.remove(&k); let mut nk = pd.as_bytes().to_vec(); nk.extend_from_slice(&k[b"patches".len()..]); ws.tree.insert(nk, v); }
+            if pd != "patches/sub" { ws.tree.remove(&b"patches".to_vec()); }
+            if !ws.tree.keys().any(|k| k.starts_with(format!("{}/", pd).as_bytes())) { ws.tree.insert(pd.as_bytes().to_vec(), Entry::Dir); }
+        }
         let ninv = 1 + rng.below(max_inv);
         let mut invs = Vec::new();
         for _ in 0..ninv {
             let mut a = gen_options(&mut rng, &threads);
+            if let Some(pd) = pdir { a.push(if rng.chance(50) { "-p".into() } else { "--patch-directory".into() }); a.push(pd.to_string()); }
             if rng.chance(dry) { a.push("--dry-run".into()); }
             let mut g = gen_goal(&mut rng, &ws);
             if state > 0 && rng.chance(15) { g = vec![(*rng.pick(&["nosuch.patch", "p0.patchx", "18446744073709551615", "99"])).to_string()]; }
